@@ -21,9 +21,9 @@
 
 from __future__ import annotations
 
-import openturns as ot
 from numpy import exp
 from numpy import log
+from scipy.stats import nct
 
 from gemseo.uncertainty.statistics.tolerance_interval.distribution import (
     BaseToleranceInterval,
@@ -80,8 +80,8 @@ class WeibullToleranceInterval(BaseToleranceInterval):
         xi_ = log(self.__scale)
         delta = 1.0 / self.__shape
         offset = -(size**0.5) * self.__lambda_function(coverage)
-        student = ot.Student(size - 1, offset, 1.0)
-        bound = xi_ - delta * student.computeQuantile(1 - alpha)[0] / (size - 1) ** 0.5
+        student_quantile = nct.ppf(1 - alpha, size - 1, offset)
+        bound = xi_ - delta * student_quantile / (size - 1) ** 0.5
         return exp(bound) + self.__location
 
     def _compute_upper_bound(
@@ -93,8 +93,8 @@ class WeibullToleranceInterval(BaseToleranceInterval):
         xi_ = log(self.__scale)
         delta = 1.0 / self.__shape
         offset = -(size**0.5) * self.__lambda_function(1 - coverage)
-        student = ot.Student(size - 1, offset, 1.0)
-        bound = xi_ - delta * student.computeQuantile(alpha)[0] / (size - 1) ** 0.5
+        student_quantile = nct.ppf(alpha, size - 1, offset)
+        bound = xi_ - delta * student_quantile / (size - 1) ** 0.5
         return exp(bound) + self.__location
 
 
